@@ -6,6 +6,13 @@
 //! forecaster `μ + Σ φ_i (x_{t−i} − μ)` for the forecasts; the metamorphic relation
 //! `predict(x + c) = predict(x) + c`; decay to the mean.
 //!
+//! Besides ordinary AR / trend / noise series the workload contains series close to the boundary of
+//! stationarity (`smooth:*` regimes, see `gen_smooth`): lag-1 sample autocorrelations above 0.9995 and
+//! partial autocorrelations close to ±1, i.e. nearly singular Yule–Walker systems, fitted at every
+//! order 1..8 and judged by the same conditioning-aware bounds (orders whose Toeplitz matrix is too
+//! ill-conditioned for any f64 solver to be judged are counted under `fit:low-power`; the labels
+//! `boundary-judged:*` count the fits that were judged and are required).
+//!
 //! Mean handling is the mechanism the property is anchored in, so every forecast assertion is
 //! evaluated under one of two regimes: `mean==0` (the fitted intercept is *exactly* 0: the series
 //! lives on a 2^-20 grid and was centred in integer arithmetic) and `mean!=0`. A second, weaker
@@ -80,7 +87,15 @@ fn gen_series(rng: &mut Rng, lite: bool) -> Series {
             *v += slope * t as f64;
         }
     }
-    let off = *rng.choose(&["mean==0", "offset-small", "offset-large", "offset-large"]);
+    let (off, x) = place(rng, &x, s, &["mean==0", "offset-small", "offset-large", "offset-large"]);
+    Series { kind, off, x }
+}
+
+/// Put the series on the 2^-20 grid, centre it exactly (integer arithmetic) and add an offset of the
+/// drawn class (also on the grid).
+fn place(rng: &mut Rng, x: &[f64], s: f64, offs: &[&'static str]) -> (&'static str, Vec<f64>) {
+    let n = x.len();
+    let off = *rng.choose(offs);
     let mut u: Vec<i64> = x.iter().map(|v| (v * GRID).round() as i64).collect();
     // centre exactly in integer units, then add the offset (also on the grid)
     let sum: i64 = u.iter().sum();
@@ -96,6 +111,129 @@ fn gen_series(rng: &mut Rng, lite: bool) -> Series {
     };
     let su = (shift * GRID).round() as i64;
     let x: Vec<f64> = u.iter().map(|&v| (v + su) as f64 / GRID).collect();
+    (off, x)
+}
+
+/// Convolve the factors (1 − a_1 B − a_2 B²) of an AR polynomial: returns φ_1..φ_p.
+fn poly_from_factors(f: &[(f64, f64)]) -> Vec<f64> {
+    // c = coefficients of the polynomial in B, c[0] = 1
+    let mut c = vec![1.0];
+    for &(a1, a2) in f {
+        let fac: &[f64] = if a2 == 0.0 { &[1.0, -a1] } else { &[1.0, -a1, -a2] };
+        let mut nc = vec![0.0; c.len() + fac.len() - 1];
+        for (i, ci) in c.iter().enumerate() {
+            for (j, fj) in fac.iter().enumerate() {
+                nc[i + j] += ci * fj;
+            }
+        }
+        c = nc;
+    }
+    c[1..].iter().map(|v| -v).collect()
+}
+
+fn simulate_ar(rng: &mut Rng, phi: &[f64], burn: usize, n: usize) -> Vec<f64> {
+    let p = phi.len();
+    let mut y = vec![0.0; p];
+    for _ in 0..burn + n {
+        let l = y.len();
+        let mut v = rng.normal();
+        for i in 0..p {
+            v += phi[i] * y[l - 1 - i];
+        }
+        y.push(v);
+    }
+    y.split_off(y.len() - n)
+}
+
+const SMOOTH_KINDS: [&str; 4] = ["smooth:near-unit-roots", "smooth:smoothed-noise", "smooth:slow-trend+noise", "smooth:narrow-band"];
+
+/// Series close to the boundary of stationarity, i.e. with nearly singular Yule–Walker systems:
+/// all of them are stationary AR output / trends plus noise inside the length range of the
+/// quantifier, but smooth enough that the lag-1 sample autocorrelation (or a later partial
+/// autocorrelation) comes within 1e-3..1e-6 of 1.
+///   * `near-unit-roots`    AR(2..6) whose roots all lie at 0.95..0.999 (real, optionally one complex
+///                          pair at a small angle), long burn-in;
+///   * `smoothed-noise`     white noise passed 2..4 times through a moving average (band-limited);
+///   * `slow-trend+noise`   1..3 sinusoids with 0.3..4 cycles over the whole series (+ optional
+///                          drift) plus white noise of 1e-3..3e-2 of the trend's sd: the noise floor
+///                          keeps the Toeplitz matrix well enough conditioned to judge every order;
+///   * `narrow-band`        AR(2) with complex roots of modulus 1−1e-5..1−1e-3 at a generic angle plus
+///                          a small white-noise floor: |pacf(2)| close to 1.
+/// Lengths sit at the long end of the range (3 of 4 in [0.4·nmax, nmax]).
+fn gen_smooth(rng: &mut Rng, lite: bool) -> Series {
+    let nmax: usize = if lite { 300 } else { 5000 };
+    let n = if rng.chance(0.75) { rng.usize(2 * nmax / 5, nmax) } else { rng.log_range(nmax as f64 / 25.0, nmax as f64).round() as usize };
+    let kind = *rng.choose(&SMOOTH_KINDS);
+    let s = rng.log_range(0.1, 100.0);
+    let tau = std::f64::consts::TAU;
+    let mut y: Vec<f64> = match kind {
+        "smooth:near-unit-roots" => {
+            let p = rng.usize(2, 6);
+            let mut fac: Vec<(f64, f64)> = Vec::new();
+            let mut left = p;
+            if p >= 2 && rng.chance(0.3) {
+                let rho = 1.0 - rng.log_range(1e-3, 5e-2);
+                let th = rng.log_range(1e-3, 5e-2);
+                fac.push((2.0 * rho * th.cos(), -rho * rho));
+                left -= 2;
+            }
+            for _ in 0..left {
+                fac.push((1.0 - rng.log_range(1e-3, 5e-2), 0.0));
+            }
+            let phi = poly_from_factors(&fac);
+            simulate_ar(rng, &phi, if lite { 2000 } else { 30000 }, n)
+        }
+        "smooth:smoothed-noise" => {
+            let m = rng.usize(2, 4);
+            let ws: Vec<usize> = (0..m).map(|_| rng.usize((n / 100).max(4), (n / 12).max(8))).collect();
+            let total: usize = ws.iter().sum();
+            let mut v = rng.normals(n + total);
+            for &w in &ws {
+                let mut acc = 0.0;
+                let mut out = Vec::with_capacity(v.len() - w);
+                for i in 0..v.len() {
+                    acc += v[i];
+                    if i >= w {
+                        acc -= v[i - w];
+                        out.push(acc / w as f64);
+                    }
+                }
+                v = out;
+            }
+            v.truncate(n);
+            v
+        }
+        "smooth:slow-trend+noise" => {
+            let k = rng.usize(1, 3);
+            let comps: Vec<(f64, f64, f64)> = (0..k).map(|_| (rng.range(0.3, 1.0), tau * rng.range(0.3, 4.0) / n as f64, rng.range(0.0, tau))).collect();
+            let drift = if rng.bool() { rng.range(-2.0, 2.0) / n as f64 } else { 0.0 };
+            let tr: Vec<f64> = (0..n).map(|t| comps.iter().map(|&(a, w, ph)| a * (w * t as f64 + ph).sin()).sum::<f64>() + drift * t as f64).collect();
+            let m = tr.iter().sum::<f64>() / n as f64;
+            let sd = (tr.iter().map(|v| (v - m) * (v - m)).sum::<f64>() / n as f64).sqrt();
+            let rel = rng.log_range(1e-3, 3e-2);
+            tr.iter().map(|v| v + rel * sd * rng.normal()).collect()
+        }
+        _ => {
+            // any generic angle; 2 of 5 near a quarter of the sampling rate, where the biased estimator
+            // lets |pacf(2)| of a finite series come closest to 1 (1 − 2/n)
+            let w = if rng.chance(0.4) { rng.range(1.45, 1.70) } else { rng.range(0.2, 2.9) };
+            let r = 1.0 - rng.log_range(1e-5, 1e-3);
+            let phi = [2.0 * r * w.cos(), -r * r];
+            let v = simulate_ar(rng, &phi, if lite { 2000 } else { 50000 }, n);
+            let m = v.iter().sum::<f64>() / n as f64;
+            let sd = (v.iter().map(|a| (a - m) * (a - m)).sum::<f64>() / n as f64).sqrt();
+            let rel = rng.log_range(1e-3, 1e-2);
+            v.iter().map(|a| a + rel * sd * rng.normal()).collect()
+        }
+    };
+    // unit sample sd, then the drawn scale
+    let m = y.iter().sum::<f64>() / n as f64;
+    let sd = (y.iter().map(|v| (v - m) * (v - m)).sum::<f64>() / n as f64).sqrt();
+    let f = if sd > 0.0 && sd.is_finite() { s / sd } else { 1.0 };
+    for v in y.iter_mut() {
+        *v = (*v - m) * f;
+    }
+    let (off, x) = place(rng, &y, s, &["mean==0", "offset-small", "offset-small", "offset-large"]);
     Series { kind, off, x }
 }
 
@@ -160,6 +298,11 @@ fn levinson(r: &[Dd], p: usize) -> Vec<Dd> {
         v = v * (Dd::ONE - a * a);
     }
     phi
+}
+
+/// Partial autocorrelations (reflection coefficients) 1..=p of the autocorrelation sequence r.
+fn pacf_dd(r: &[Dd], p: usize) -> Vec<f64> {
+    (1..=p).map(|k| levinson(r, k)[k - 1].f()).collect()
 }
 
 // ---------------------------------------------------------------------------------------------
@@ -356,6 +499,8 @@ struct Fit {
     phi: Vec<f64>, // natural order φ_1..φ_p
     mu: f64,
     kappa: f64,
+    /// the coefficients were compared with the Yule–Walker solution (a-priori bound <= 1e-3)
+    judged: bool,
 }
 
 fn fit_and_check(rep: &mut Report, regime: &str, x: &[f64], df: &Defs, p: usize) -> Option<(AR, Fit)> {
@@ -402,7 +547,8 @@ fn fit_and_check(rep: &mut Report, regime: &str, x: &[f64], df: &Defs, p: usize)
     let eta = if df.b_acov < 0.25 * df.c0 { 2.0 * df.b_acov / (df.c0 - df.b_acov) + 4.0 * U } else { f64::INFINITY };
     let l1: f64 = phi.iter().map(|v| v.abs()).sum();
     let fwd = kappa * (8.0 * p as f64 * EPS + 2.0 * eta) * (1.0 + l1);
-    if !(fwd <= 1e-3) {
+    let judged = fwd <= 1e-3;
+    if !judged {
         // the a-priori bound says nothing here: do not judge the coefficients
         rep.seen("fit:low-power(kappa*eps too large)", 1);
     } else {
@@ -430,7 +576,7 @@ fn fit_and_check(rep: &mut Report, regime: &str, x: &[f64], df: &Defs, p: usize)
         rep.check("C13.fit.levinson", regime, werr <= fwd_ref, || json!({"p": p, "series": jf(x), "phi": jf(&phi), "levinson": jf(&ld), "bound": fwd_ref, "kappa": jnum(kappa)}));
     }
     let mu = m.intercept;
-    Some((m, Fit { phi, mu, kappa }))
+    Some((m, Fit { phi, mu, kappa, judged }))
 }
 
 /// All forecast assertions for one fitted model on one history. Returns the library's forecasts.
@@ -634,8 +780,65 @@ fn one_series(cfg: &Cfg, rng: &mut Rng, rep: &mut Report) {
     }
 }
 
+/// One series close to the boundary of stationarity: definitions of acovf/acf, the fit at EVERY order
+/// 1..8 against the Yule–Walker equations of the series' own double-double autocovariances (same
+/// conditioning-aware bounds as for ordinary series), forecasts for two of the orders.
+fn one_smooth(cfg: &Cfg, rng: &mut Rng, rep: &mut Report) {
+    let s = gen_smooth(rng, cfg.lite);
+    let x = &s.x;
+    let regime = format!("{}:{}", s.kind, s.off);
+    rep.case(&regime);
+    rep.seen(s.kind, 1);
+    let df = defs(x);
+    let sd = df.c0.sqrt();
+    rep.distinct(Hasher::new().s(&regime).u(x.len() as u64).fs(&x[..x.len().min(16)]).finish(), df.c0 > 0.0);
+    // how close to the boundary: lag-1 autocorrelation and the later partial autocorrelations of the
+    // series itself (double-double), never read from the library
+    let c0 = acov_ref(&df.d, 0);
+    let r_dd: Vec<Dd> = (0..=8).map(|k| acov_ref(&df.d, k) / c0).collect();
+    let r1 = r_dd[1].f();
+    let pacf = pacf_dd(&r_dd, 8);
+    let later = pacf[1..].iter().fold(0.0f64, |m, v| m.max(v.abs()));
+    let long = x.len() >= 2000;
+    for (thr, label) in [(0.999, "0.999"), (0.9995, "0.9995"), (0.9999, "0.9999")] {
+        if r1 > thr {
+            rep.seen(&format!("boundary:acf1>{}", label), 1);
+        }
+        if later > thr {
+            rep.seen(&format!("boundary:|pacf(k>=2)|>{}", label), 1);
+        }
+    }
+    if long {
+        rep.seen("boundary:n>=2000", 1);
+    }
+    rep.note_max("boundary.max_acf1", r1);
+    rep.note_max("boundary.max_abs_later_pacf", later);
+    check_acf(rep, &regime, x, &df);
+    let fc: Vec<usize> = vec![rng.usize(1, 8), rng.usize(2, 8)];
+    for p in 1..=8usize {
+        let Some((m, f)) = fit_and_check(rep, &regime, x, &df, p) else { continue };
+        rep.seen(&format!("order:{}", p), 1);
+        if f.judged {
+            rep.seen(&format!("boundary-judged:order:{}", p), 1);
+            if r1 > 0.9995 {
+                rep.seen(&format!("boundary-judged:acf1>0.9995:order:{}", p), 1);
+            }
+            if later > 0.999 && p >= 2 {
+                rep.seen("boundary-judged:|pacf(k>=2)|>0.999:order>=2", 1);
+            }
+        }
+        if f.phi.iter().any(|v| !v.is_finite()) || !fc.contains(&p) {
+            continue;
+        }
+        let _ = check_forecasts(rep, &m, &f, x, sd, rng, false);
+        if p == fc[0] {
+            rep.sample(|| json!({"regime": regime, "n": x.len(), "p": p, "acf1": jnum(r1), "max_abs_later_pacf": jnum(later), "phi": jf(&f.phi), "intercept": jnum(f.mu), "kappa": jnum(f.kappa), "judged": f.judged}));
+        }
+    }
+}
+
 pub fn run(cfg: &Cfg, rep: &mut Report) {
-    rep.rule = "random series: AR(1..6) simulated from random partial autocorrelations (stationary by construction), AR + linear trend, constant + white noise; scale 0.1..100, length log-uniform 10..5000; centred exactly (integer arithmetic on a 2^-20 grid, fitted intercept == 0.0), small offset, or offset 1e2..1e6; per series all lags -50..50 and |lag| >= n, 2-3 model orders in 1..8, horizons 1..1000, shifts c in {1,1e3,1e6}. non-trivial = non-constant series; distinct by (regime, length, first 16 values)".into();
+    rep.rule = "random series: AR(1..6) simulated from random partial autocorrelations (stationary by construction), AR + linear trend, constant + white noise; scale 0.1..100, length log-uniform 10..5000; centred exactly (integer arithmetic on a 2^-20 grid, fitted intercept == 0.0), small offset, or offset 1e2..1e6; per series all lags -50..50 and |lag| >= n, 2-3 model orders in 1..8, horizons 1..1000, shifts c in {1,1e3,1e6}. Series close to the boundary of stationarity (nearly singular Yule-Walker systems; 64 quick / 800 thorough, 3 of 4 with length 2000..5000): AR(2..6) with all roots at 0.95..0.999, white noise passed 2..4 times through a moving average, 1..3 slow sinusoids (0.3..4 cycles per series, optional drift) plus white noise of 1e-3..3e-2 of their sd, narrow-band AR(2) with root modulus 1-1e-5..1-1e-3 plus a small noise floor; lag-1 sample autocorrelation up to 1-4e-6, |pacf(2)| up to 0.9995; per series all lags, the fit at EVERY order 1..8 against the Yule-Walker equations of its own double-double autocovariances, forecasts at two orders. non-trivial = non-constant series; distinct by (regime, length, first 16 values)".into();
     rep.assume("series values are multiples of 2^-20 with |x| < 2^22, so x + c is exactly representable and the shifted input is not itself rounded");
     rep.assume("model order p <= 8 < 10 <= series length (predict_one with fewer than p values and predict on shorter histories are outside the quantifier)");
     rep.assume("coefficients are read from AR.coeffs in the documented (reversed) storage order");
@@ -658,7 +861,24 @@ pub fn run(cfg: &Cfg, rep: &mut Report) {
             check_forecasts(rep, &m, &f, &x, df.c0.sqrt(), rng, false);
         }
     });
+    // series close to the boundary of stationarity (nearly singular Yule–Walker systems), every order
+    if !cfg.miri() {
+        let ns = cfg.pick(64, 800, 2);
+        par_cases(cfg, rep, 3, ns, |_i, rng, rep| one_smooth(cfg, rng, rep));
+    }
     if !cfg.lite {
+        for kind in SMOOTH_KINDS {
+            rep.require(kind, 3);
+        }
+        rep.require("boundary:n>=2000", 10);
+        rep.require("boundary:acf1>0.9995", 10);
+        rep.require("boundary:acf1>0.9999", 3);
+        rep.require("boundary:|pacf(k>=2)|>0.999", 1);
+        for p in 1..=8 {
+            rep.require(&format!("boundary-judged:order:{}", p), 3);
+            rep.require(&format!("boundary-judged:acf1>0.9995:order:{}", p), 2);
+        }
+        rep.require("boundary-judged:|pacf(k>=2)|>0.999:order>=2", 1);
         for kind in ["ar", "ar+trend", "const+noise"] {
             for off in ["mean==0", "offset-small", "offset-large"] {
                 rep.require(&format!("{}:{}", kind, off), 1);
